@@ -17,9 +17,10 @@ type cellPayload struct {
 func addOverflow(db *Database, pl cellPayload) ([]byte, error) {
 	to := pl.Payload
 	overflow := pl.Overflow
-	for {
+	for int64(len(to)) < pl.Length {
 		if overflow == 0 {
-			return to[:pl.Length], nil
+			// fewer bytes than the cell promised
+			return nil, ErrCorrupted
 		}
 		buf, err := db.page(overflow)
 		if err != nil {
@@ -29,4 +30,5 @@ func addOverflow(db *Database, pl cellPayload) ([]byte, error) {
 		to = append(to, buf...)
 		overflow = next
 	}
+	return to[:pl.Length], nil
 }
